@@ -80,14 +80,15 @@ def run(ctx):
       if cohort < 1:
         continue
       # concrete datasets and derived views (subset of / slice of a larger dataset, subset over SQLite)
-      cfgs.append(('get', ('mem', 'sql', 'subset', 'sqlsub', 'slice')[len(cfgs) % 5], n, cohort))
+      cfgs.append(('get', ('mem', 'sql', 'subset', 'sqlsub', 'slice', 'memstr')[len(cfgs) % 6], n, cohort))
   cfgs += [('stream', 'mem', 6, 2), ('stream', 'slice', 6, 3), ('stream', 'subset', 3, 1), ('stream', 'sqlsub', 6, 3), ('stream', 'sql', 10, 4)]
   if not big:
     cfgs = cfgs[::2] + cfgs[-2:]
   # streaming: cohorts that straddle the passes of the repeating shuffled stream (population not a multiple of the cohort
   # size; the same client may then occur twice in a cohort), several stream seeds / buffer sizes each
   for _ in range(4 if big else 2):
-    cfgs += [('stream', 'mem', 3, 2), ('stream', 'mem', 5, 3), ('stream', 'sql', 10, 4)]
+    cfgs += [('stream', 'mem', 3, 2), ('stream', 'memstr', 5, 3), ('stream', 'sql', 10, 4)]
+  cfgs.append(('get', 'memstr', 6, 3))
   per_cfg = (len(get_h) // 4) if big else 60
   trs = []
   intern_out, intern_key = Interner(), Interner()
